@@ -191,8 +191,23 @@ def fold_check(ck, u, eng, name, host_big, tag, proved):
             heads = set(by_h)
             iters = [p for p in ps if p.end == 'loopback']
             exits = [p for p in ps if p.end == 'return']
-            if not iters or not exits or len(iters) + len(exits) != len(ps):
-                raise Shape('loop without iteration/exit path')
+            if not exits or len(iters) + len(exits) != len(ps):
+                raise Shape('loop without exit path')
+            if not iters:
+                # the loop condition can never hold on entry: the loop-carried variables keep their entry values
+                pre_conds = [c for c in ps[0].cond_terms() if not any(sym.contains(c, h) for h in heads)]
+                pf = eng.path_facts(pre_conds)
+                for p in exits:
+                    r = strip_cast(p.ret)
+                    v = by_h[r][1] if r in by_h else r
+                    k = folded(v, pf) if v is not None else 'no value'
+                    if isinstance(k, str) or not same(pf, k - total):
+                        bad = ('the loop body can never run (its condition is false for every count), so the function returns the fold over %s '
+                               'octets instead of the %s octets of the buffer' % (k if not isinstance(k, str) else 0, total))
+                        break
+                if bad:
+                    break
+                continue
 
             def octets(t):
                 if t in heads:
@@ -220,7 +235,12 @@ def fold_check(ck, u, eng, name, host_big, tag, proved):
                 if other:
                     raise Shape('call to %s inside the loop' % other[0].name)
                 if not steps:
-                    raise Shape('iteration without crc16_octet')
+                    moved = [fmt(k_) for h, (k_, pre) in by_h.items() if strip_cast(p.mem.get(k_, h)) != h]
+                    if moved:
+                        bad = ('an iteration (%s) changes %s without feeding an octet to crc16_octet: octets are skipped'
+                               % (p.describe(2), ', '.join(sorted(moved))))
+                        break
+                    continue
                 ha = strip_cast(steps[0].args[0])
                 if ha not in by_h or (h_acc is not None and ha != h_acc):
                     bad = 'first step of an iteration (%s) is seeded with %s, not with the running accumulator' % (steps[0].where(), fmt(steps[0].args[0]))
